@@ -299,6 +299,10 @@ void check_template(Chunk *start, bool in_type_cast)
             }
             else
             {
+               if (num_tokens >= max_token_count - 1)
+               {
+                  break;
+               }
                tokens[num_tokens] = CT_ANGLE_OPEN;
                num_tokens++;
             }
